@@ -337,6 +337,8 @@ impl UpdateLock {
     pub fn acquire(path: &Path, file_description: &str) -> Option<Self> {
         let name = path.file_name().and_then(|n| n.to_str()).unwrap_or("state");
         let lock_path = path.with_file_name(format!(".{name}.lock"));
+        #[cfg(feature = "verif")]
+        crate::verif_hooks::point("update.lock-wanted", path);
         let file = ensure_parent_dir(&lock_path).and_then(|()| {
             OpenOptions::new()
                 .create(true)
@@ -352,6 +354,8 @@ impl UpdateLock {
         };
         match outcome {
             Ok(lock) => {
+                #[cfg(feature = "verif")]
+                crate::verif_hooks::point("update.locked", path);
                 Some(lock)
             }
             Err(e) => {
